@@ -320,6 +320,15 @@ def check(c):
             got = np.asarray(call(f, A, B, axis=0, **kw)).tolist()
             add(tagd, np.shape(got) == np.shape(wantd) and all(close(g, v) for gr, wr in zip(got, wantd) for g, v in zip(gr, wr)),
                 '(d) %r vs %r' % (got, wantd))
+        if name == 'manhattan':
+            # the Lipschitz-weighted metric between two DIFFERENT sets of points (also of different sizes): entry [i][j] is
+            # sum_k L[k] * |x[i][k] - x'[j][k]|
+            L = [abs(v) + 0.5 for v in X[0]]
+            for tagd, A, B in (('lipschitz-two-sets', X, Y), ('lipschitz-sets-of-different-size', X, Y[:max(1, len(Y) - 1)] + [Z[0]] * 2)):
+                wantd = [[math.fsum(l * abs(u - v) for l, u, v in zip(L, a, b)) for b in B] for a in A]
+                got = np.asarray(call(md.lipschitz_metric, np.array(L), np.array(A), np.array(B))).tolist()
+                add(tagd, np.shape(got) == np.shape(wantd) and all(close(g, v) for gr, wr in zip(got, wantd) for g, v in zip(gr, wr)),
+                    '(e) L=%r: %r vs %r' % (L, got, wantd))
         return bad, False
     if name == 'Lnorm' and 'axis' in c:     # the norm taken along an axis of a 2-D array; p omitted -> 1
         X, ax = c['X'], c['axis']
